@@ -612,7 +612,7 @@ def simplify_op(op: dict):
 TIERS = {
     "C19": {
         "quick": {"runs": 5000, "selftest": 12, "chunk": 100, "wall_cap": 900, "run_timeout": 120},
-        "thorough": {"runs": 120000, "selftest": 48, "chunk": 400, "wall_cap": 3300, "run_timeout": 120,
+        "thorough": {"runs": 90000, "selftest": 48, "chunk": 400, "wall_cap": 3300, "run_timeout": 120,
                      "expect_probes": ["interrupt", "add_after_step", "compile_returned", "compile_returned_clean_twin_equal",
                                        "compile_returned_fresh_compiler_equal",
                                        "compile_raised_expected:uninitialised", "compile_raised_expected:unstepped",
